@@ -5,7 +5,8 @@ wt=/tmp/rt_$sha
 git -C /repo worktree remove --force $wt 2>/dev/null
 git -C /repo worktree add -q --detach $wt HEAD || exit 3
 cd $wt
-env -u SDC11073_VERIF PYTHONPATH=$wt/src:$wt /venv/bin/python -m pytest -ra -q -p no:cacheprovider --timeout=900 --continue-on-collection-errors "$@" > /tmp/rt_$sha.log 2>&1
+unset SDC11073_VERIF; export PYTHONPATH=$wt/src:$wt
+/venv/bin/python -m pytest -ra -q -p no:cacheprovider --timeout=900 --continue-on-collection-errors "$@" > /tmp/rt_$sha.log 2>&1
 rc=$?
 /venv/bin/python - <<PY >> /tmp/rt_$sha.log
 import sdc11073; print('imported from', sdc11073.__file__)
